@@ -67,7 +67,19 @@ CLAIMED = {
              "sha256 independently, checks same-bytes-same-hash across entry points and reads content back right after each append.",
              design="5/C10", technique="Lean 4 proofs over the Route model with a content map; differential execution incl. binary / 8 KiB-boundary / chunked bodies",
              note="H"),
+
+ "C04": dict(text="Theorems: the journal a history writes (one batch per append/import/remove, one per frame a gc task removes) replays to exactly the partitions the history leaves; append/import/remove "
+             "commit at most one batch; an image holding the batches of the first k operations (plus any torn tail) recovers to the state after those k operations; a crash during a write recovers to the "
+             "state before or after it; the recovered partitions with the rebuilt registry satisfy the store invariant. fjall's journal contract is assumed and exercised: SIGKILL after / during operations, "
+             "torn-tail (power-loss) images, a syscall-level check that every acknowledgement follows an fsync of the journal, content present for visible hashed frames.",
+             design="5/C04", technique="Lean 4 proof over a journal model (one-batch-per-operation refinement); crash images from real kills + strace-checked fsync-before-ack discipline",
+             note="J"),
 }
+
+JOURNAL_NOTE = ("Trusted: Lean 4.33 kernel; hand model XsModel/Journal.lean; ASSUMED (not verified): fjall recovers a batch iff it is completely on disk and persist(SyncAll) makes the journal durable; "
+                "the OS keeps completed writes of a killed process. Tie: histories run in a child process killed after an acknowledged write or a random delay into the next one; the directory and "
+                "torn-tail variants (acknowledged image + prefix of the journal bytes written since) are reopened in a fresh process and must equal the acknowledged state or that state plus the whole "
+                "in-flight operation; strace checks that no acknowledgement is written while journal bytes are unsynced. The store directory is on tmpfs, so real power loss is simulated, not produced.")
 
 HTTP_NOTE = ("Trusted: Lean 4.33 kernel (axioms propext, Classical.choice, Quot.sound only); the hand model XsModel/Route.lean (inputs: hyper's parsed request, pre-classified xs-meta decoding, "
              "decoded import body, sha256 of the body); hyper, base64, serde_json text layer, cacache. Tie: raw request bytes are sent to the real server over its unix socket and the same "
@@ -93,7 +105,7 @@ def check_entry(pid):
         "replay_cmd_template": f"./check {pid} --replay {{path}}",
         "engine": "lean+xsw",
         "level_claimed": {"category": "proof", "text": c["text"], "design_ref": "DESIGN.md section " + c["design"]},
-        "level_note": FOLLOW_NOTE if c.get("note") == "B" else WIRE_NOTE if c.get("note") == "W" else HTTP_NOTE if c.get("note") == "H" else c.get("note", STORE_NOTE),
+        "level_note": FOLLOW_NOTE if c.get("note") == "B" else WIRE_NOTE if c.get("note") == "W" else HTTP_NOTE if c.get("note") == "H" else JOURNAL_NOTE if c.get("note") == "J" else c.get("note", STORE_NOTE),
         "technique": c["technique"],
     }
 
